@@ -637,6 +637,9 @@ func (g *Gen) Markdown(lists bool) string {
 			}
 		case x == 8:
 			add("---\n\n")
+		case x == 9 && g.Extra:
+			// pictures by relative path (with and without alternative text): resolved against the directory of the source file
+			add("![](pic.png) and ![" + r.Pick("", "alt "+g.PlainText()) + "](img/" + r.Pick("a", "b") + ".png)\n\n")
 		default:
 			add(g.Text() + " plain paragraph\nsoft break\n\n")
 		}
